@@ -346,7 +346,7 @@ func runC18Reentrant(ctx *Ctx, idx, k int, r *gen.R) Result {
 		case "MaxItem":
 			e.MinMax(-1, "t", true, false)
 		case "GetTotals":
-			e.Totals(-1, "t")
+			e.TotalsOp(-1, "t")
 		case "nested-visit":
 			e.Visit(-1, "t", driver.VisitKind(delivered%4), key, true, -1)
 		case "nested-iterator":
